@@ -65,6 +65,26 @@ CLAIMS["C16"] = dict(
         "allocation histories on the real StorageConfiguration are a separate obligation.",
    note="as C01", ref="5 C16", tech=TECH_CXX)
 
+CLAIMS["C02"] = dict(
+   text="Catalogue decoding kernels: every accessor of a catalogue entry equals the DFS bit-field layout (all 2^128 values, sign extension at bit 17 "
+        "included); the CatalogFragment constructor yields the 12-character 7-bit title, cycle, boot option, total sectors, entry count and the k-th "
+        "entry (symbolic k) from arbitrary catalogue sectors; the CRC routine used for .inf files is CRC-16/XMODEM (one-step lemma). Listing order "
+        "(cat comparator) and line formats are separate obligations when present in evidence.",
+   note="bounded by entries per fragment (3 quick, 31 thorough); ostream formatting is modelled by harness/cxx/iomodel.h", ref="5 C02", tech=TECH_CXX)
+CLAIMS["C13"] = dict(
+   text="smells_like_watford / smells_like_hdfs decided for every sector 1 (256 symbolic bytes) and every 8-byte prefix of sector 2: Watford iff the "
+        "recognition bytes are present and no catalogued file starts in sector 2 (10-bit start sector); further identification kernels as listed in evidence.",
+   note="Opus recognition and geometry choice covered only where listed in evidence", ref="5 C13", tech=TECH_CXX)
+CLAIMS["C11"] = dict(
+   text="bbcbasic_to_text: with stdout failing from an arbitrary call on (ISO C contract model: a call reports failure and sets the error indicator, "
+        "or is buffered and fails at the final flush) decode_line fails with perror, and main returns non-zero with a diagnostic whenever output was lost. "
+        "dfs: exit-status kernel and extraction protocol where listed in evidence.",
+   note="byte-offset granularity abstracted to call granularity; glibc/libstdc++ buffering not modelled beyond the ISO contract", ref="5 C11", tech=TECH_C)
+CLAIMS["C19"] = dict(
+   text="Both build flavours of the BASIC decoder (NDEBUG as pinned, and assertions enabled where a failing assert is itself a reported property) are "
+        "compared with the same oracle on the same symbolic inputs (lines, files, command lines): each equals the oracle, hence they equal each other.",
+   note="dfs units are covered for the NDEBUG flavour only unless listed in evidence", ref="5 C19", tech=TECH_C)
+
 NOT_APPLICABLE = {}
 
 LEVEL = "model_checking"
